@@ -217,6 +217,38 @@ class Conc:
             atoms = [a, b, c][:sum(1 for t in sh if t.startswith("a"))]
             rnd.shuffle(atoms)
             out.append({"kind": "merge", "shape": sh, "atoms": atoms})
+        # total dimension zero with a dimensionless unit or constant KEPT and dimensional units CANCELLING:
+        # the same unit with two prefixes (or twice), and a unit against one of reciprocal dimension; every
+        # dimensionless table row, and every admissible (prefix, unit) pair as the cancelling partner
+        def isdimless(u):
+            return all((x[0] if isinstance(x, tuple) else x) == 0 for x in u["dim"])
+        dimless = [ui + 1 for ui, u in enumerate(self.data["units"]) if isdimless(u)]
+        dimful = [pr for pr in self.pairs if pr[1] not in dimless]
+        by_unit = {}
+        for pr in dimful:
+            by_unit.setdefault(pr[1], []).append(pr)
+        zshapes = [["a1", "*", "a2", "/", "a3"], ["a1", "/", "a2", "*", "a3"], ["a1", "*", "a2", "/", "(", "a3", "*", "a4", ")"],
+                   ["(", "a1", "/", "a2", ")", "*", "a3"], ["a1", "/", "(", "a2", "/", "a3", ")"]]
+        zjobs = [(d, rnd.choice(dimful)) for d in dimless for _ in range(3)]
+        zjobs += [(rnd.choice(dimless), pr) for pr in (dimful if tier != "quick" else rnd.sample(dimful, 250))]
+        for d, pr in zjobs:
+            e = rnd.choice(EXPS)
+            other = rnd.choice(by_unit[pr[1]])
+            da = self.unit_atom((0, d), rnd.choice([(1, 1), (1, 1), (2, 1), (-1, 1), (1, 2)]))
+            x, y = self.unit_atom(pr, e), self.unit_atom(other, e)
+            sh = rnd.choice(zshapes)
+            n = sum(1 for t in sh if t.startswith("a"))
+            if sh == zshapes[0]:
+                atoms = [da, x, y]                       # d * X / X'
+            elif sh == zshapes[1]:
+                atoms = [x, y, da]                       # X / X' * d
+            elif sh == zshapes[2]:
+                atoms = [da, x, y, self.unit_atom((0, rnd.choice(dimless)))]     # d * X / (X' * d')
+            elif sh == zshapes[3]:
+                atoms = [x, y, da]                       # (X / X') * d
+            else:
+                atoms = [da, y, x]                       # d / (X' / X)
+            out.append({"kind": "zerodim", "shape": sh, "atoms": atoms})
         # the definition string of every table row and of every prefix
         for ui, u in enumerate(self.data["units"]):
             if u["hasdef"]:
@@ -439,7 +471,7 @@ def run(replay=None):
         if rec["cls"] == "wellformed":
             for x in rec["units"]:
                 used_pairs.add((x["p"], x["u"]))
-            if len(rec["units"]) >= 2 or rec["_ckind"] in ("def", "merge"):
+            if len(rec["units"]) >= 2 or rec["_ckind"] in ("def", "merge", "zerodim"):
                 nontrivial.add(rec["text"])
     samples += [{k: x[k] for k in ("text", "cls", "units", "dims", "factor", "num", "render", "tags")} for x in recs[5:7] + [y for y in recs if y["_ckind"] == "def"][:1]]
     if (r1.violated or unref or r2.violated or r3.violated or r4.violated) and V.counts["violation"] == 0:
